@@ -73,8 +73,8 @@ func (op *rop) argTok() string {
 func (op *rop) tok() string {
 	r := "r" + strconv.Itoa(op.r)
 	switch op.code {
-	case "new":
-		return "new " + strconv.Itoa(op.r)
+	case "new", "nil", "zero":
+		return op.code + " " + strconv.Itoa(op.r)
 	case "has", "get", "clear", "mut", "newf", "which":
 		return op.code + " " + r + " " + strconv.Itoa(op.f)
 	case "set":
@@ -126,7 +126,16 @@ type rimpl struct {
 	res  []interface{}
 	wrap func(m protoreflect.Message) protoreflect.Message
 	mk   func(mi *msgInfo) protoreflect.Message
+	null func(mi *msgInfo, viaType bool) protoreflect.Message // typed nil pointer / MessageType.Zero()
 	pan  interface{}
+}
+
+func msgInfoOf(mi *msgInfo) *protoimpl.MessageInfo {
+	mt, err := protoregistry.GlobalTypes.FindMessageByName(mi.md.FullName())
+	if err != nil {
+		panic(err)
+	}
+	return mt.(*protoimpl.MessageInfo)
 }
 
 func slowOf(m protoreflect.Message) protoreflect.Message {
@@ -141,16 +150,29 @@ func newImplF() *rimpl {
 	return &rimpl{name: "F", wrap: func(m protoreflect.Message) protoreflect.Message { return m },
 		mk: func(mi *msgInfo) protoreflect.Message {
 			return reflect.New(mi.goType).Interface().(proto.Message).ProtoReflect()
+		},
+		null: func(mi *msgInfo, viaType bool) protoreflect.Message {
+			if viaType {
+				return reflect.New(mi.goType).Interface().(proto.Message).ProtoReflect().Type().Zero()
+			}
+			return reflect.Zero(reflect.PtrTo(mi.goType)).Interface().(proto.Message).ProtoReflect()
 		}}
 }
 func newImplD() *rimpl {
 	return &rimpl{name: "D", wrap: func(m protoreflect.Message) protoreflect.Message { return m },
-		mk: func(mi *msgInfo) protoreflect.Message { return dynamicpb.NewMessage(mi.md) }}
+		mk:   func(mi *msgInfo) protoreflect.Message { return dynamicpb.NewMessage(mi.md) },
+		null: func(mi *msgInfo, viaType bool) protoreflect.Message { return dynamicpb.NewMessageType(mi.md).Zero() }}
 }
 func newImplS() *rimpl {
 	return &rimpl{name: "S", wrap: slowOf,
 		mk: func(mi *msgInfo) protoreflect.Message {
 			return slowOf(reflect.New(mi.goType).Interface().(proto.Message).ProtoReflect())
+		},
+		null: func(mi *msgInfo, viaType bool) protoreflect.Message {
+			if viaType {
+				return msgInfoOf(mi).Zero()
+			}
+			return msgInfoOf(mi).MessageOf(reflect.Zero(reflect.PtrTo(mi.goType)).Interface())
 		}}
 }
 
@@ -212,7 +234,9 @@ type rsession struct {
 	stopped bool
 	class   string
 	lastOut *outv // D's result of the last step
-	nocmp   bool  // nil mode without references
+	propID  string // the property a difference between F and the references is reported under
+	noStop  bool   // nil mode: a step the references disagree on does not end the history
+	softRef bool   // nil elements: only S can hold the same value; differences are counted, not reported
 }
 
 func fieldIndexOf(mi *msgInfo, fd protoreflect.FieldDescriptor) int {
@@ -251,6 +275,10 @@ func (s *rsession) apply(x *rimpl, op *rop) (h interface{}, out *outv) {
 	x.pan = nil
 	if op.code == "new" {
 		m := x.mk(s.si.msgs[op.r])
+		return m, &outv{k: 'M', m: m}
+	}
+	if op.code == "nil" || op.code == "zero" {
+		m := x.null(s.si.msgs[op.r], op.code == "zero")
 		return m, &outv{k: 'M', m: m}
 	}
 	hi := &s.hs[op.r]
